@@ -38,6 +38,9 @@ struct IObj {
     // exact neighbour sequences + counters: "observably identical" (C07) is
     // compared on this, order included
     virtual json exact() const = 0;
+    // the abstract graph as the public API shows it: vertices, edges, attributes of the edges
+    // (what C06 says operator== must compare - and nothing else)
+    virtual json abstractGraph() const = 0;
     virtual bool equals(const IObj &other) const = 0; // operator==
     virtual bool differs(const IObj &other) const = 0; // operator!=
     virtual void assignFrom(const IObj &other) = 0;    // operator=
@@ -298,12 +301,36 @@ template <class G> class Obj : public IObj {
         });
     }
 
+    // "[topic] message; [topic] message; ..." -> {topic: messages}
+    static json groupByTopic(const std::string &bad) {
+        json o = json::object();
+        size_t st = 0;
+        while (st < bad.size()) {
+            size_t e = bad.find("; ", st);
+            if (e == std::string::npos)
+                e = bad.size();
+            std::string m = bad.substr(st, e - st);
+            std::string topic = "other";
+            if (!m.empty() && m[0] == '[') {
+                size_t c = m.find(']');
+                if (c != std::string::npos) {
+                    topic = m.substr(1, c - 1);
+                    m = m.substr(std::min(m.size(), c + 2));
+                }
+            }
+            if (!m.empty())
+                o[topic] = o.value(topic, std::string()) + m + "; ";
+            st = e + 2;
+        }
+        return o;
+    }
+
     // multigraph variant 1: counts are reported in units of 2^30
     unsigned long long unit(unsigned long long v, std::string &bad) const {
         if (!(I::kind == KindTag::Multi && variant))
             return v;
         if (v & ((1ull << 30) - 1))
-            bad += "a multiplicity-weighted count is not a multiple of the unit; ";
+            bad += "[mult] a multiplicity-weighted count is not a multiple of the unit; ";
         return v >> 30;
     }
     json unitVec(const std::vector<size_t> &v, std::string &bad) const {
@@ -326,7 +353,7 @@ template <class G> class Obj : public IObj {
         for (VertexIndex i = 0; i < n; ++i)
             for (VertexIndex j : g.getOutNeighbours(i)) {
                 if (j >= n) {
-                    bad += "neighbour " + std::to_string(j) + " of " + std::to_string(i) + " out of range; ";
+                    bad += "[range] neighbour " + std::to_string(j) + " of " + std::to_string(i) + " out of range; ";
                     continue;
                 }
                 m[i][j] = m[i][j].get<int>() + 1;
@@ -345,7 +372,7 @@ template <class G> class Obj : public IObj {
         } catch (const std::invalid_argument &) {
             return NONE_L;
         } catch (const std::exception &e) {
-            bad += std::string("getEdgeLabel threw ") + e.what() + "; ";
+            bad += std::string("[label] getEdgeLabel threw ") + e.what() + "; ";
             return UNKNOWN_L;
         }
     }
@@ -355,14 +382,14 @@ template <class G> class Obj : public IObj {
         try {
             return projectImpl();
         } catch (const std::exception &e) {
-            return json{{"inconsistent", std::string("an observer threw: ") + e.what()}};
+            return json{{"inconsistent", json{{"threw", std::string("an observer threw: ") + e.what()}}}};
         }
     }
     json enc() const override {
         try {
             return encImpl();
         } catch (const std::exception &e) {
-            return json{{"inconsistent", std::string("an observer threw: ") + e.what()}};
+            return json{{"inconsistent", json{{"threw", std::string("an observer threw: ") + e.what()}}}};
         }
     }
 
@@ -379,19 +406,19 @@ template <class G> class Obj : public IObj {
             VertexIndex expect = 0;
             for (VertexIndex v : g) {
                 if (v != expect)
-                    bad += "vertex iteration out of order; ";
+                    bad += "[iter] vertex iteration out of order; ";
                 ++expect;
             }
             if (expect != n)
-                bad += "vertex iteration count; ";
+                bad += "[iter] vertex iteration count; ";
             auto it = g.begin();
             for (VertexIndex k = 0; k < n; ++k) {
                 auto old = it++;
                 if (*old != k)
-                    bad += "vertex post-increment; ";
+                    bad += "[iter] vertex post-increment; ";
             }
             if (it != g.end())
-                bad += "vertex iteration end; ";
+                bad += "[iter] vertex iteration end; ";
         }
 
         json has = zeroMat(n), lab = zeroMat(n), labd = zeroMat(n);
@@ -428,19 +455,34 @@ template <class G> class Obj : public IObj {
             for (auto e : g.edges())
                 s4.push_back(e);
             if (s1 != s2 || s1 != s3 || s1 != s4)
-                bad += "edge traversals disagree; ";
+                bad += "[iter] edge traversals disagree; ";
             for (auto &e : s1) {
                 if (e.first >= n || e.second >= n) {
-                    bad += "edge out of range; ";
+                    bad += "[range] edge out of range; ";
                     continue;
                 }
                 ec[e.first][e.second] = ec[e.first][e.second].get<int>() + 1;
             }
             o["edges"] = ec;
+            // edges() must yield exactly the neighbour-list entries (the half with
+            // vertex <= neighbour for the undirected classes): an oracle that does not depend
+            // on which graph the object is supposed to hold
+            {
+                const json &nb = o["nbr"];
+                bool same = true;
+                for (VertexIndex i = 0; i < n && same; ++i)
+                    for (VertexIndex j = 0; j < n && same; ++j) {
+                        int want = (I::directed || i <= j) ? nb[i][j].get<int>() : 0;
+                        if (ec[i][j].get<int>() != want)
+                            same = false;
+                    }
+                if (!same)
+                    bad += "[iter] edges() does not enumerate the neighbour lists exactly once; ";
+            }
             bool be = g.edges().begin() == g.edges().end();
             bool bne = g.edges().begin() != g.edges().end();
             if (be == bne)
-                bad += "edge iterator == and != agree; ";
+                bad += "[iter] edge iterator == and != agree; ";
             o["noedge"] = be ? 1 : 0;
         }
 
@@ -449,14 +491,14 @@ template <class G> class Obj : public IObj {
             auto ods = g.getOutDegrees();
             auto ids = g.getInDegrees();
             if (ods.size() != n || ids.size() != n)
-                bad += "degree vector size; ";
+                bad += "[degree] degree vector size; ";
             for (VertexIndex v = 0; v < n; ++v) {
                 od.push_back(unit(g.getOutDegree(v), bad));
                 id.push_back(unit(g.getInDegree(v), bad));
                 if (v < ods.size() && ods[v] != g.getOutDegree(v))
-                    bad += "getOutDegrees != getOutDegree; ";
+                    bad += "[degree] getOutDegrees != getOutDegree; ";
                 if (v < ids.size() && ids[v] != g.getInDegree(v))
-                    bad += "getInDegrees != getInDegree; ";
+                    bad += "[degree] getInDegrees != getInDegree; ";
             }
             o["outdeg"] = od;
             o["indeg"] = id;
@@ -465,12 +507,12 @@ template <class G> class Obj : public IObj {
             json d2 = json::array(), d1 = json::array();
             auto v2 = g.getDegrees(), v1 = g.getDegrees(false);
             if (v2.size() != n || v1.size() != n)
-                bad += "degree vector size; ";
+                bad += "[degree] degree vector size; ";
             for (VertexIndex v = 0; v < n; ++v) {
                 d2.push_back(unit(g.getDegree(v), bad));
                 d1.push_back(unit(g.getDegree(v, false), bad));
                 if (v < v2.size() && (v2[v] != g.getDegree(v, true) || v1[v] != g.getDegree(v, false)))
-                    bad += "getDegrees != getDegree; ";
+                    bad += "[degree] getDegrees != getDegree; ";
             }
             o["deg2"] = d2;
             o["deg1"] = d1;
@@ -480,7 +522,7 @@ template <class G> class Obj : public IObj {
             if constexpr (I::kind == KindTag::Labeled)
                 for (VertexIndex v = 0; v < n; ++v)
                     if (g.getNeighbours(v) != g.getOutNeighbours(v))
-                        bad += "getNeighbours != getOutNeighbours; ";
+                        bad += "[nbr] getNeighbours != getOutNeighbours; ";
         }
         if (n == 0 && !o["mat"].is_array())
             o["mat"] = json::array();
@@ -510,14 +552,14 @@ template <class G> class Obj : public IObj {
                 if (sawHuge)
                     tol = std::max(tol, 1e12L);
                 if (std::fabs((double)(t - sum)) > (double)tol) {
-                    bad += "total weight differs from the sum of the edge weights beyond rounding error; ";
+                    bad += "[total] total weight differs from the sum of the edge weights beyond rounding error; ";
                     o["tot"] = (double)t;
                 } else
                     o["tot"] = abstractSum;
             } else {
                 long double r = std::nearbyint(t);
                 if (r != t) {
-                    bad += "total weight not integral; ";
+                    bad += "[total] total weight not integral; ";
                     o["tot"] = (double)t;
                 } else
                     o["tot"] = (long long)r;
@@ -525,7 +567,7 @@ template <class G> class Obj : public IObj {
             json wm = zeroMat(n);
             auto w = g.getWeightMatrix();
             if (w.size() != n)
-                bad += "weight matrix size; ";
+                bad += "[weight] weight matrix size; ";
             for (VertexIndex i = 0; i < n && i < w.size(); ++i)
                 for (VertexIndex j = 0; j < n && j < w[i].size(); ++j)
                     wm[i][j] = (w[i][j] == 0 && !g.hasEdge(i, j)) ? 0 : Lab<G>::dec(w[i][j], variant);
@@ -535,7 +577,7 @@ template <class G> class Obj : public IObj {
                 for (VertexIndex j = 0; j < n; ++j) {
                     int a = Lab<G>::dec(g.getEdgeWeight(i, j, false), variant);
                     if (a != labd[i][j].get<int>())
-                        bad += "getEdgeWeight(.,.,false) != label; ";
+                        bad += "[weight] getEdgeWeight(.,.,false) != label; ";
                     bool thr = false;
                     try {
                         (void)g.getEdgeWeight(i, j);
@@ -543,13 +585,13 @@ template <class G> class Obj : public IObj {
                         thr = true;
                     }
                     if (thr != (lab[i][j].get<int>() == NONE_L))
-                        bad += "getEdgeWeight throw != label presence; ";
+                        bad += "[weight] getEdgeWeight throw != label presence; ";
                 }
         } else
             o["tot"] = 0;
 
         if (!bad.empty())
-            o["inconsistent"] = bad;
+            o["inconsistent"] = groupByTopic(bad);
         return o;
     }
 
@@ -584,8 +626,21 @@ template <class G> class Obj : public IObj {
         } else
             e["tot"] = 0;
         if (!bad.empty())
-            e["inconsistent"] = bad;
+            e["inconsistent"] = groupByTopic(bad);
         return e;
+    }
+
+    json abstractGraph() const override {
+        const size_t n = g.getSize();
+        json a = {{"n", n}, {"has", zeroMat(n)}, {"att", zeroMat(n)}};
+        std::string bad;
+        for (VertexIndex i = 0; i < n; ++i)
+            for (VertexIndex j = 0; j < n; ++j)
+                if (g.hasEdge(i, j)) {
+                    a["has"][i][j] = 1;
+                    a["att"][i][j] = nolabel ? 0 : labelThrowing(i, j, bad);
+                }
+        return a;
     }
 
     json exact() const override {
